@@ -5,6 +5,11 @@ HERE = os.path.dirname(os.path.dirname(os.path.abspath(__file__)))
 ALL = ["C%02d" % i for i in range(1, 21)]
 # id -> (category, engine, technique, level text, level note, design ref)
 CHECKS = {
+ "C17": ("model_checking", "E1-choice",
+   "stateless choice-tree exploration of merged-region sets and table geometries through every API path of the real xlsx / xls readers",
+   "Workbooks with 1-2 sheets, 0-3 merged regions per sheet drawn in every order from five regions (A1 to the last rows/columns of the format; xls also split over two MERGECELLS records), and for xlsx 0-2 tables at 5 placements relative to the used range x header 0/1 x totals 0/1 x explicit default counts x either sheet x prefix, all choice vectors with <=4 (thorough 5) deviations; worksheet_merge_cells(_at), load_merged_regions + merged_regions(_by_sheet), load_tables, table_names(_in_sheet), table_by_name(_ref) are compared with the declared geometry and the model values.",
+   "Trusted: gen/xlsx.rs, gen/biff8.rs; tables keep at least one data row.",
+   "DESIGN.md §2 C17"),
  "C08": ("model_checking", "E2-bfs",
    "exhaustive enumeration of option histories (depth <= 2 over 12 options, depth 3 over 4/12) x all row patterns x four formats on real readers vs the statement",
    "For every subset of rows 0..4 being non-empty (32 patterns), two column offsets and all four formats, every history of <=2 header-row settings over FirstNonEmptyRow and Row(n), n in {0..6, 65535, 65536, 1048576, u32::MAX}, and every history of 3 over a 4-option subset (thorough: all 12), is run on one reader with a read after every step; each read must not panic, start at row n iff data exists at or below n (else be empty), agree cell-by-cell with the default read at every position >= n and contain nothing else.",
